@@ -145,8 +145,9 @@ Section Barrel.
     | _ =>
         match translate_index ls index with
         | Raise e => Raise e
-        | Ok None => Raise IndexError
-        | Ok (Some (li, rel)) =>
+        | Ok tr =>
+            (* if list_idx is None: list_idx, rel_idx = 0, 0   (before the front: clamp) *)
+            let '(li, rel) := match tr with None => (0, 0%Z) | Some p => p end in
             match nth_error ls li with
             | None => Raise IndexError
             | Some l => bl_balance (set_nth li (py_insert l rel x) ls) li
@@ -155,7 +156,22 @@ Section Barrel.
     end.
 
   (* pop( *a ) : the optional index *)
-  Definition bl_pop_last (ls : barrel) : res (A * barrel) :=
+  (* while len(lists) > 1 and not lists[-1]: lists.pop() *)
+  Fixpoint trim_tail (ls : barrel) : barrel :=
+    match ls with
+    | [] => []
+    | l :: rest =>
+        match rest with
+        | [] => [l]
+        | _ :: _ => match trim_tail rest with
+                    | [[]] => [l]
+                    | r' => l :: r'
+                    end
+        end
+    end.
+
+  Definition bl_pop_last (ls0 : barrel) : res (A * barrel) :=
+    let ls := trim_tail ls0 in
     match py_pop (last ls []) (-1) with
     | Raise e => Raise e
     | Ok (v, l') =>
@@ -544,6 +560,18 @@ Definition bl_step (limit : nat -> nat) (ls : barrel (A := nat)) (op : bl_op)
               | Ok v => (ls, BVal v)
               | Raise e => (ls, BErr e)
               end
+  | BInsertNeg k x => match bl_insert limit ls (- Z.of_nat k)%Z x with
+                      | Ok ls' => (ls', BNone)
+                      | Raise e => (ls, BErr e)
+                      end
+  | BPopLast => match bl_pop limit ls None with
+                | Ok (v, ls') => (ls', BVal v)
+                | Raise e => (ls, BErr e)
+                end
+  | BPopNeg k => match bl_pop limit ls (Some (- Z.of_nat k)%Z) with
+                 | Ok (v, ls') => (ls', BVal v)
+                 | Raise e => (ls, BErr e)
+                 end
   | BGetNeg k => match bl_get ls (- Z.of_nat k)%Z with
                  | Ok v => (ls, BVal v)
                  | Raise e => (ls, BErr e)
